@@ -213,11 +213,14 @@ fn check_op(c: &TCase, op: &TOp, tr: &[(bool, u64, u8, u64)], res: &Res, pre: &P
             // (the extra feature read made by the harness itself is part of the trace)
             only(&[0x070, 0x014, 0x010, 0x024, 0x020, 0x028])?;
             let sup = *sup | (pre.offered & 1 << 32);
-            if *res != Res::U64(pre.offered & sup) {
-                return Err(format!("begin_init negotiated {:x?}, device offers {:#x}, driver supports {:#x}", res, pre.offered, sup));
+            // negotiated: a subset of offered-and-supported (which of them to take is C08's
+            // business, as is VERSION_1), and exactly what the device was told
+            let Res::U64(neg) = res else { return Err(format!("begin_init returned {:?}", res)) };
+            if neg & !(pre.offered & sup) != 0 || (pre.offered & 1 << 32 != 0 && neg & 1 << 32 == 0) {
+                return Err(format!("begin_init negotiated {:#x}, device offers {:#x}, driver supports {:#x}", neg, pre.offered, sup));
             }
-            if post.3 != pre.offered & sup {
-                return Err(format!("driver features seen by the device {:#x}, negotiated {:#x}", post.3, pre.offered & sup));
+            if post.3 != *neg {
+                return Err(format!("driver features seen by the device {:#x}, negotiated {:#x}", post.3, neg));
             }
             let gps: Vec<u64> = tr.iter().filter(|a| a.0 && a.1 == 0x028).map(|a| a.3).collect();
             if legacy {
